@@ -569,6 +569,24 @@ def _repr(interp, st, args, kwargs):
 BUILTINS['repr'] = Model('repr', _repr)
 
 
+def _round(interp, st, args, kwargs):
+    """round(x[, ndigits]): a deterministic function of its arguments (uninterpreted: banker's rounding of binary floats is not
+    modelled); concrete ints pass through"""
+    x = resolve(st, args[0])
+    nd = args[1] if len(args) > 1 else kwargs.get('ndigits')
+    if isinstance(x, int) and not isinstance(x, bool) and nd is None:
+        yield st, x
+        return
+    zx = lift(x, REAL) if not (isinstance(x, SV) and x.ty == REAL) else x
+    if nd is None:
+        yield st, SV(INT, interp.uf('round0', REAL, INT)(zx.z))
+    else:
+        yield st, SV(REAL, interp.uf('round_n', REAL, INT, REAL)(zx.z, lift(nd, INT).z))
+
+
+BUILTINS['round'] = Model('round', _round)
+
+
 def _tuple_ctor(interp, st, args, kwargs):
     if not args:
         yield st, ()
